@@ -2,7 +2,12 @@
 NOTES = ('Every check: stage P builds /repo working tree in /var/tmp/uncrustify-verif/<treehash>; harness TUs #include the real '
          '.cpp files; IR->C translation is validated on every run against the g++ build of the same functions; exit 2 + '
          'INCONCLUSIVE lines = no verdict (never counted as success).')
-NOT_APPLICABLE = {}
+NOT_APPLICABLE = {
+    'C04': 'Not decidable within reach of solver-based checking of the real code here: the code-modifying passes (braces.cpp, parens.cpp, semicolons.cpp, '
+           'sorting.cpp, ...) are pointer-chasing walks over the chunk list with data-dependent predicates; CBMC did not finish symbolic execution of '
+           'such walks even for 2-4 chunks (do_blank_lines: no verdict in 10 min; the list primitives Swap/MoveAfter/SwapLines with symbolic operands: '
+           'out of memory at 40 GB), and the gating in uncrustify_file() would need ~100 callee stubs in both builds. See DESIGN.md section 9.2.',
+}
 CLAIMS = {
     'C09': dict(
         text='Bounded model checking of the real codec (src/unicode.cpp): for ALL byte strings up to the stated length the decode->write '
@@ -139,4 +144,28 @@ CLAIMS = {
              'do_space are cut by a mechanical source patch (they return constants under non-option names). Not decided: application to '
              'columns (space_text), the fusion guard, later passes.',
         design_ref='DESIGN.md section 4, C19'),
+    'C01': dict(
+        text='Only one of the meaning-critical local mechanisms is decided: a newline inserted between two chunks of a preprocessor directive '
+             '(real newline_add_before/newline_add_after with setup_newline_add and undo_one_liner) is a backslash-newline chunk flagged as '
+             'preprocessor, plain code gets a plain newline, exactly one line break, inserted exactly between the two chunks, token texts '
+             'untouched - for all flag/level/kind valuations of the pair. Compile equivalence itself is NOT decided.',
+        note='Restricted claim (DESIGN.md 9.2): no compiler semantics in the solver and the ~40 passes cannot be encoded; the fusion guard, '
+             'brace removal and paren insertion obligations of the plan were not built.',
+        design_ref='DESIGN.md section 4 C01, section 9.2'),
+    'C03': dict(
+        text='Bounded model checking of the string-literal tokenizer step (real parse_string with parse_suffix over n symbolic code points '
+             'starting with a quote, escape options and languages symbolic): the chunk text is exactly the characters consumed, line breaks '
+             'inside the literal are counted once each (LF, CR LF, CR), the chunk kind reflects multi-line literals, progress is made and '
+             'the input is never over-read.',
+        note='Bounds: quick n<=4, thorough n<=6; string_replace_tab_chars=false (premise of C03). Found and fixed: D10 (NUL appended after a '
+             'bare CR at end of input). Not decided: comments (parse_comment, output_comment_*), raw / C# / D strings, the literal writer.',
+        design_ref='DESIGN.md section 4 C03, section 9.2'),
+    'C11': dict(
+        text='One inductive step by bounded model checking of the real per-file reset: from an ARBITRARY valuation of the per-file state of '
+             'cpd that the tokenizer, newline passes and output stage read before writing (open disabled region, preprocessor level/state, '
+             'terminator census, change counters, captured output) and a non-empty chunk list, uncrustify_end() restores the values of a '
+             'fresh process and empties list and buffer. An arbitrary pre-state stands for any number and kind of previous files.',
+        note='Not decided: state outside cpd or not owned by uncrustify_end (sort_imports caches, Qt override state, last_char, lang_flags '
+             'under -l: the property text itself names that leak), passes that are not encoded.',
+        design_ref='DESIGN.md section 4 C11, section 9.2'),
 }
